@@ -98,6 +98,41 @@ def run(chk, replay=None):
             if cp != "sat-error":
                 chk.violation({"class": "prune-verdict", "what": "unpruned fails, pruned %s || %s" % (y[:80], g.text[:160])},
                               dict(base, expected="Err", broken="the unpruned program fails under env but satisfy_with_env(Some(env)) returned a program"))
+    # ---- other environments (lock time, sequence, fee output): the verdict of the pruned program follows the environment it was pruned for
+    eprogs = [
+        ("fn main() { jet::check_lock_height(witness::H); }", [("H", ("U", 5))]),
+        ("fn main() { jet::check_lock_height(1000); }", []),
+        ("fn main() { jet::check_lock_time(witness::H); }", [("H", ("U", 5))]),
+        ("fn main() { jet::check_lock_distance(witness::D); }", [("D", ("U", 4))]),
+        ("fn main() { jet::check_lock_duration(witness::D); }", [("D", ("U", 4))]),
+        ("fn main() { let h: u32 = jet::tx_lock_height(); match jet::eq_32(h, witness::H) { true => assert!(jet::eq_32(jet::num_outputs(), witness::N)), false => assert!(witness::B), }; }", [("H", ("U", 5)), ("N", ("U", 5)), ("B", ("B",))]),
+        ("fn main() { let s: u32 = jet::current_sequence(); match witness::E { Left(x: u32) => assert!(jet::eq_32(s, x)), Right(y: u16) => jet::check_lock_distance(y), }; }", [("E", ("E", ("U", 5), ("U", 4)))]),
+    ]
+    envs = [(0, 0xffffffff, 0), (1000, 0, 0), (999, 0xfffffffe, 1), (500000001, 50, 0), (500000000, 0x00400031, 1), (0, 49, 0)]
+    el = []
+    for text, wts in eprogs:
+        for env in envs:
+            for _ in range(2 if quick else 8):
+                vals = []
+                for n, t in wts:
+                    if t[0] == "U":
+                        vals.append((n, ("u", t[1], rng.choice([0, 1, 2, 49, 50, 51, 999, 1000, 1001, 500000000, 500000001, env[0], env[1] & 0xffff]) % (1 << (1 << t[1])))))
+                    else:
+                        vals.append((n, gen.gen_val(rng, t)))
+                el.append((text, vals, env, "(runpe %s () %s 0 (%d %d %d))" % (quote(text), corelib.bindings_sx(vals), env[0], env[1], env[2])))
+    for (text, vals, env, ln), x in zip(el, impl("core", [e[3] for e in el])):
+        m = re.match(r"\(unpruned \((\w+)[^)]*\)\) \(pruned \((\w+)(.*)\)\)$", x)
+        chk.case(ln, sample={"program": text[:100], "env": env, "outcome": x[:90]})
+        if not m:
+            chk.violation({"class": "prune-panic", "what": x[:200]}, {"cmd": "core", "line": ln, "implementation": x, "broken": "unexpected outcome under a non-default environment"})
+            continue
+        u, pr, rest = m.group(1), m.group(2), m.group(3)
+        chk.count("env.%s.%s" % (u, pr))
+        good = (u == "ok" and pr == "ok" and "mexec=ok" in rest and "decode=ok" in rest) or (u == "fail" and pr == "sat")
+        if not good and not ("twins=yes" in rest or "depprune=same" in rest and "mexec=ok" in rest):
+            chk.violation({"class": "prune-verdict", "what": "env %s: unpruned %s, pruned %s || %s" % (env, u, pr, text[:160])},
+                          {"cmd": "core", "line": ln, "program": text, "witness": corelib.bindings_sx(vals), "environment": env, "implementation": x[:600],
+                           "broken": "under this environment satisfy_with_env(Some(env)) is not Ok-and-succeeding exactly when the unpruned program succeeds"})
     # the pruned run against the source semantics, with the observed value pinned (so that successes are frequent)
     corelib.run_matrix(chk, [g for g in acc if not g.label.startswith("env/")], dbgs=(0,), cmd="runp", pruned=True, max_assign=8 if quick else None, upstream_fixed=fixed)
     chk.extra["rule"] = ("generated programs x witness assignments, and programs whose verdict depends on the environment (check_lock_*, current_sequence, lock_time; one with an untaken branch holding an "
